@@ -955,6 +955,34 @@ def run(ctx):
             ctx.sample({"source": want, "design": _short(owners[i][1]), "verdict": list(verdicts[i]),
                         "modules": [m["name"] for m in json.loads(docs[i])["mods"]]})
 
+    # ---- documents of the language-level design families (the design sources of C04): expressions, statements with
+    # every assignment-target form, FSMs, domains / inserters / renamers, random hierarchies -------------------------
+    from . import c04
+    c04.WANT_WF = True
+    ljobs = c04.design_jobs(ctx, th, scale=0.5)
+    lres = pmap(c04._run_job, ljobs, chunksize=4)
+    ldocs, lmeta = [], []
+    for r in lres:
+        if r[0] == "ok":
+            ldocs.append(r[1]["wf"])
+            lmeta.append(r[1]["meta"])
+        elif r[0] == "violation":
+            ctx.violation({"clause": "convert_or_parse", "source": "language/" + r[2]["source"], "what": r[1].split(":")[0]},
+                          "design from the %s family: %s (%s)" % (r[2]["source"], r[1], str(r[2])[:600]), replay=r[2])
+    lverd = validate_documents(ctx, ldocs, "language-designs")
+    acc = 0
+    for v, m in zip(lverd, lmeta):
+        ctx.case(repr(m))
+        if v[0] == "ACC":
+            acc += 1
+        else:
+            ctx.violation({"clause": v[2], "source": "language/" + m["source"], "detail": str(v[3])[:120]},
+                          "RTLIL of a design from the %s family is not well-formed: module %s, clause %s, %s; design: %s" % (
+                              m["source"], v[1], v[2], str(v[3])[:300], str(m)[:800]), replay={"meta": m, "verdict": list(map(str, v))})
+    ctx.cov["stages"]["language-designs"] = {"documents": len(ldocs), "accepted": acc}
+    ctx.cov["traces_validated_against_impl"] += len(ldocs)
+    t0 = _t(ctx, "language designs (%d documents)" % len(ldocs), t0)
+
     ctx.cov["exhaustive"] = False
     ctx.cov["rule"] = ("case = one design (a HierGen state rendered with amaranth, or a seeded random design) whose emitted "
                        "RTLIL was parsed and judged by RtlilWF; non-trivial = the document has at least one wire bit whose "
